@@ -397,6 +397,32 @@ pub fn run(run: &Run) {
             cp += n as u32;
         }
     });
+    // in-range partners: every such code point against the code point that differs from it in exactly one of the
+    // bits 0..=20 (same thread, alternating) - a memo keyed on too few bits of an *in-range* value (r6-C14-2: low 20 bits)
+    run.par("in_range_bit_partners", true, |tid, n, l| {
+        let d = db();
+        let mut cp = tid as u32;
+        while cp < 0x110000 {
+            if matches!(d.id(cp), Dpv::PValid | Dpv::ContextJ | Dpv::ContextO) || matches!(d.ff(cp), Dpv::SpecPval) {
+                for sh in 0u32..=20 {
+                    let alias = cp ^ (1u32 << sh);
+                    if alias >= 0x110000 {
+                        continue;
+                    }
+                    let seq = [cp, alias, cp, alias];
+                    for (i, x) in seq.iter().enumerate() {
+                        l.cases += 1;
+                        if let Err(mut v) = check_cp(*x, l) {
+                            v.case["history"] = json!(seq[..i].to_vec());
+                            run.violate(v);
+                            return;
+                        }
+                    }
+                }
+            }
+            cp += n as u32;
+        }
+    });
 }
 
 pub fn replay(_run: &Run, case: &Value) -> Check {
